@@ -48,6 +48,113 @@ fn esc(b: &[u8]) -> String { b.iter().map(|c| std::ascii::escape_default(*c).to_
 
 fn main() {
     let a: Vec<String> = std::env::args().collect();
+    if a[1] == "stubcheck" {
+        // seqio_replay stubcheck <seed> <sequences> <ops per sequence>
+        // Differential check of trusted stub T1 (contracts/00_prelude.rs, buffer_redux::BufReader): random operation sequences on the
+        // real BufReader over an endless source that always fills the slice it is given; after every operation the observable part
+        // of the stub's postcondition is compared with the real object (buffer contents, capacity bounds, and - through the number of
+        // bytes the next read delivers - the amount of usable space, i.e. the stub's model of `head`).  A test, not a proof.
+        let mut seed: u64 = a[2].parse().unwrap();
+        let nseq: usize = a[3].parse().unwrap();
+        let nops: usize = a[4].parse().unwrap();
+        let mut rnd = move || { seed ^= seed << 13; seed ^= seed >> 7; seed ^= seed << 17; seed };
+        struct Endless(u64);
+        impl Read for Endless {
+            fn read(&mut self, buf: &mut [u8]) -> io::Result<usize> {
+                for b in buf.iter_mut() { *b = (self.0 % 251) as u8; self.0 += 1; }
+                Ok(buf.len())
+            }
+        }
+        let mut checked = 0usize;
+        for _ in 0..nseq {
+            let cap0 = 1 + (rnd() % 40) as usize;
+            let mut r = buffer_redux::BufReader::with_capacity(cap0, Endless(0));
+            assert!(r.capacity() >= cap0 && r.buffer().is_empty(), "with_capacity");
+            // model: (file offset of buffer[0], buffer contents, head)
+            let (mut base, mut head): (u64, usize) = (0, 0);
+            let mut model: Vec<u8> = vec![];
+            for _ in 0..nops {
+                let cap = r.capacity();
+                match rnd() % 4 {
+                    0 => { // read_into_buf: delivers exactly the usable space the stub predicts
+                        let usable = cap - head - model.len();
+                        let n = r.read_into_buf().unwrap();
+                        assert!(n == usable, "read_into_buf read {} bytes, stub predicts usable {} (cap {} head {} len {})", n, usable, cap, head, model.len());
+                        for i in 0..n { model.push(((base + model.len() as u64) % 251) as u8); let _ = i; }
+                        assert!(r.capacity() == cap, "read_into_buf changed the capacity");
+                    }
+                    1 => { // consume
+                        let amt = (rnd() % 12) as usize;
+                        let k = amt.min(model.len());
+                        use std::io::BufRead;
+                        r.consume(amt);
+                        head = if k == model.len() { 0 } else { head + k };
+                        model.drain(..k);
+                        base += k as u64;
+                        assert!(r.capacity() == cap, "consume changed the capacity");
+                    }
+                    2 => { // make_room
+                        r.make_room();
+                        head = 0;
+                        assert!(r.capacity() == cap, "make_room changed the capacity");
+                    }
+                    _ => { // reserve
+                        let add = (rnd() % 24) as usize;
+                        let usable = cap - head - model.len();
+                        r.reserve(add);
+                        if model.is_empty() { head = 0; }
+                        assert!(r.capacity() >= cap, "reserve shrank the buffer");
+                        if usable >= add { assert!(r.capacity() == cap, "reserve grew although {} usable >= {} requested", usable, add); }
+                        assert!(r.capacity() - head - model.len() >= add, "reserve({}) left less usable space than requested", add);
+                    }
+                }
+                assert!(r.buffer() == &model[..], "buffer contents differ from the stub's model");
+                checked += 1;
+            }
+        }
+        // T4: the assumed specifications of <[u8]>::split / splitn / chunks (contracts/15_stdspecs.rs) on random byte strings:
+        // one step yields the piece before the first separator and continues after it; splitn's last piece is the whole rest;
+        // chunks yields pieces of n bytes, the last one 1..=n bytes
+        let mut t4 = 0usize;
+        for _ in 0..nseq {
+            let len = (rnd() % 12) as usize;
+            let v: Vec<u8> = (0..len).map(|_| b"ab \n"[(rnd() % 4) as usize]).collect();
+            let c = b" \n"[(rnd() % 2) as usize];
+            let mut rest: Option<&[u8]> = Some(&v[..]);
+            for piece in v.split(|b| *b == c) {
+                let r0 = rest.expect("split yielded a piece after it was done");
+                let k = r0.iter().position(|b| *b == c).unwrap_or(r0.len());
+                assert!(piece == &r0[..k], "split piece");
+                rest = if k < r0.len() { Some(&r0[k + 1..]) } else { None };
+                t4 += 1;
+            }
+            assert!(rest.is_none(), "split stopped early");
+            let n = 1 + (rnd() % 3) as usize;
+            let mut it = v.splitn(n, |b| *b == c);
+            let mut r0: &[u8] = &v[..];
+            let mut done = false;
+            for i in 0..n + 1 {
+                let got = it.next();
+                if i >= n || done { assert!(got.is_none(), "splitn yields beyond its count / after the end"); continue; }
+                if i + 1 == n { assert!(got == Some(r0), "splitn last piece is the rest"); done = true; continue; }
+                let k = r0.iter().position(|b| *b == c).unwrap_or(r0.len());
+                assert!(got == Some(&r0[..k]), "splitn piece");
+                if k < r0.len() { r0 = &r0[k + 1..]; } else { done = true; }
+                t4 += 1;
+            }
+            let w = 1 + (rnd() % 5) as usize;
+            let mut off = 0;
+            for ch in v.chunks(w) {
+                let e = (off + w).min(v.len());
+                assert!(ch == &v[off..e] && !ch.is_empty(), "chunks piece");
+                off = e;
+                t4 += 1;
+            }
+            assert!(off == v.len(), "chunks covers the slice");
+        }
+        println!("stubcheck ok: {} BufReader operations on {} sequences agree with the T1 stub; {} split/splitn/chunks steps agree with the T4 stubs", checked, nseq, t4);
+        return;
+    }
     if a[1] == "policy" {
         // seqio_replay policy <std|du|dul> <current_size> [double_until] [limit]
         use seq_io::policy::{BufPolicy, DoubleUntil, StdPolicy};
